@@ -6,6 +6,7 @@ THEOREMS = ["EngineModel.Properties.C11V1." + t for t in [
     "C11_reachable_wellformed",
     "C11_no_failing_conjunct",
     "C11_encodings_agree",
+    "C11_wfRaw_iff_invariant",
     "C11_membership_rows_wellformed",
     "C11_wfRaw_rejects_known_damage",
     "C11_track_derived_columns",
